@@ -167,6 +167,16 @@ def check(fn):
             nes = {v for v, op in chk if op == "!="}
             s1.unchk -= nes
             s2.unchk -= eqs
+            # `if (p == NULL)` / `if (!p)` as the whole condition: in that branch p holds no block (the allocation failed), nothing is to be freed
+            c0 = strip(cond)
+            while c0.get("kind") in ("ParenExpr", "ImplicitCastExpr"):
+                c0 = strip(c0["inner"][0])
+            whole = (c0.get("kind") == "BinaryOperator" and c0.get("opcode") in ("==", "!=")) or (c0.get("kind") == "UnaryOperator" and c0.get("opcode") == "!")
+            if whole and len(chk) == 1:
+                (v_, op_), = chk
+                tgt = s1 if op_ == "==" else s2
+                tgt.alloc.discard(v_)
+                tgt.unchk.discard(v_)
             # inside the failure branch the pointers may be NULL: only free() is a legal use, and free(NULL) is fine
             s1 = ex(then, s1)
             if els is not None:
